@@ -422,6 +422,66 @@ func (c *Ctx) independentInputs(name string) []wfInput {
 	return out
 }
 
+// errorClassInputs: for every format, good records, then ONE record exhibiting one class of syntax error,
+// then more good records -- one input per error class, so that every error path of a parser is followed by
+// further input (what is yielded after an error item is what C11/C18 are about).
+func errorClassInputs(name string) [][]byte {
+	var out [][]byte
+	wrap := func(good, bad string) {
+		out = append(out, []byte(good+bad+good+good), []byte(bad+good), []byte(good+good+bad))
+	}
+	switch name {
+	case "fastq":
+		g := "@r\nAC\n+\nII\n"
+		for _, bad := range []string{"r\nAC\n+\nII\n", "@r\nAC\n-\nII\n", "@r\nAC\n\nII\n", "@r\nAC\n+\nI\n", "@r\nAC\n+\nIII\n", "\n", "@r\nAC\n+\n"} {
+			wrap(g, bad)
+		}
+	case "sam", "samh":
+		g := "q\t0\tr\t1\t2\t*\t=\t3\t4\tAC\tII\tXA:i:1\n"
+		f := strings.Split(strings.TrimSuffix(g, "\n"), "\t")
+		mk := func(i int, v string) string {
+			h := append([]string(nil), f...)
+			h[i] = v
+			return strings.Join(h, "\t") + "\n"
+		}
+		bads := []string{strings.Join(f[:10], "\t") + "\n", strings.Join(f[:3], "\t") + "\n", "x\n"}
+		for _, i := range []int{1, 3, 4, 7, 8} {
+			bads = append(bads, mk(i, "1x"), mk(i, ""), mk(i, "-"), mk(i, "99999999999999999999"))
+		}
+		for _, t := range []string{"XA", "XA:i", "XAi1", "XA:i:x", "XA:i:", "XA:f:x", "XA:H:abc", "XA:H:zz", "XA:A:ab", "XA:A:", "XA:Q:1", "XA:B:c,1,x", ":i:1", "XA::1"} {
+			bads = append(bads, mk(11, t), mk(11, "XB:Z:ok")+"", strings.TrimSuffix(g, "\n")+"\t"+t+"\n")
+		}
+		for _, bad := range bads {
+			wrap(g, bad)
+			wrap("@HD\tVN:1\n"+g, bad)
+		}
+	case "bed":
+		g := "c\t1\t9\tn\t5\t+\t2\t3\t1,2,3\t2\t1,2\t0,5\n"
+		f := strings.Split(strings.TrimSuffix(g, "\n"), "\t")
+		mk := func(i int, v string) string {
+			h := append([]string(nil), f...)
+			h[i] = v
+			return strings.Join(h, "\t") + "\n"
+		}
+		bads := []string{strings.Join(f[:11], "\t") + "\n", strings.Join(f[:3], "\t") + "\n", strings.Join(f[:2], "\t") + "\n", g[:len(g)-1] + "\textra\n"}
+		for _, i := range []int{1, 2, 4, 6, 7, 9} {
+			bads = append(bads, mk(i, "1x"), mk(i, "-"), mk(i, "1.5"))
+		}
+		bads = append(bads, mk(5, "x"), mk(5, "++"), mk(8, "1,2"), mk(8, "1,2,3,4"), mk(8, "256,0,0"), mk(8, "a,b,c"), mk(8, "-1,0,0"),
+			mk(9, "3"), mk(9, "1"), mk(9, "0"), mk(10, "1,2,3"), mk(10, "1"), mk(10, "1,x"), mk(10, ""), mk(11, "0"), mk(11, "0,5,9"), mk(11, "0,y"), mk(11, ""), mk(10, "1,2,"), mk(11, ",0,5"))
+		for _, bad := range bads {
+			wrap(g, bad)
+		}
+	case "newick":
+		g := "(a:1,b)c;"
+		for _, bad := range []string{"(a,b;", "a,b);", "(a,b)c)d;", "(a b)c;", "(a:x,b)c;", "(a:,b)c;", "(a:1:2,b)c;", "(a'b',c)d;", "(a,b)c d;", "(a,b)'c", ";;", "(,,(", "a:1e999;", "(a,b):;", "'a''", ")"} {
+			wrap(g, bad)
+			wrap(g+"\n", bad+"\n")
+		}
+	}
+	return out
+}
+
 func formatByName(name string) *format {
 	for _, g := range formats {
 		if g.name == name {
